@@ -481,7 +481,9 @@ Inductive case :=
 | CMsg (t t2 : N)
 (* one valueset: its type, KDF constructors of embedded passwords, the DbValueSetV2 tag written,
    type of the reloaded valueset (None = Err), `reloaded == original`, reloaded stores to the
-   same bytes, other observations (len, proto strings, index keys, syntax, verify) unchanged *)
+   same bytes, other observations unchanged: len, proto strings, index keys, credential verify and
+   the behavioural probes (contains / substring / startswith / endswith / lessthan on every own
+   partial value, every referenced uuid and absent ones; remove-by-reference on session types) *)
 | CVs (k : vskind) (pwtags : list N) (tag : dbtag) (res : option vskind) (same restore obs : bool)
 (* one entry through the database encoding *)
 | CDb (st : estate) (attrs : list aval) (out : eout)
